@@ -1,8 +1,6 @@
 import Cherab.Props.C06Table
 open Cherab.Props.C06Table
-#print axioms add_matches_update
+#print axioms of
 #print axioms get_matches_update
 #print axioms templates_shaped
 #print axioms templates_disjoint
-#print axioms all_paths_under_root
-#print axioms tables_wellformed
